@@ -71,7 +71,7 @@ class C20(Prop):
                 # several connections served through one handler-factory wrapper: as with the core API, each gets a delegate of its own
                 c.update(conns=rng.choice([2, 2, 3]), ops=[[rng.randint(0, 2), rng.choice(['fnf', 'mp', 'setup'])] for _ in range(rng.randint(2, 6))])
             elif k == 'honeway':
-                c.update(op=rng.choice(['fnf', 'mp', 'setup']))
+                c.update(op=rng.choice(['fnf', 'mp', 'setup', 'mp-empty', 'fnf-empty']))
             elif k == 'hresp':
                 c.update(data=rng.choice(['', 'aa']), shape=rng.choice(['plain', 'plain', 'error', 'then-error', 'deferred', 'deferred-then-error']))
             else:
@@ -238,6 +238,10 @@ class C20(Prop):
             t.deliver(engine.build_frame({'ty': 'SETUP', 'sid': 0, 'data': [1]}).serialize())
         elif case['op'] == 'mp':
             t.deliver(engine.build_frame({'ty': 'METADATA_PUSH', 'sid': 0, 'data': [7]}).serialize())
+        elif case['op'] == 'mp-empty':
+            t.deliver(engine.build_frame({'ty': 'METADATA_PUSH', 'sid': 0, 'data': []}).serialize())      # an empty push is a push (the core handler gets it)
+        elif case['op'] == 'fnf-empty':
+            t.deliver(engine.build_frame({'ty': 'REQUEST_FNF', 'sid': 1, 'data': []}).serialize())
         else:
             t.deliver(engine.build_frame({'ty': 'REQUEST_FNF', 'sid': 1, 'data': [8]}).serialize())
         await loop.settle()
@@ -573,7 +577,7 @@ class C20(Prop):
             elif obs['wire'].count(want) != 1:
                 add('one-way-request-sent-more-than-once', '%s called once (result subscribed %d times): wire %s' % (case['op'], case.get('subs', 1), obs['wire']))
         elif k == 'honeway':
-            want = {'setup': 'setup:data=c/d:metadata=a/b:01', 'mp': 'mp:07', 'fnf': 'fnf:08'}[case['op']]
+            want = {'setup': 'setup:data=c/d:metadata=a/b:01', 'mp': 'mp:07', 'fnf': 'fnf:08', 'mp-empty': 'mp:', 'fnf-empty': 'fnf:'}[case['op']]
             if obs['calls'] != [want]:
                 add('delegate-not-reached:' + case['op'], 'the %s reached the delegate as %s (wire: %s)' % (case['op'], obs['calls'], obs['wire'][:2]))
             if any(w.startswith('ERROR') for w in obs['wire']):
